@@ -18,7 +18,7 @@ PROP = dict(
                "the split variant is refuted by a concrete schedule (C40_split_refuted); the real code is exercised on forced "
                "schedules through one verif-tag schedule point (commit 0f394d1), other interleavings only as the Go "
                "scheduler produces them.",
-    engines=[dict(hx="route", args=["c40"], model="route_c40"), dict(hx="topics_inlinesched")],
+    engines=[dict(hx="route", args=["c40"], model="route_c40"), dict(hx="topics_inlinesched"), dict(hx="topics_inlinereent")],
     theorems=["C40_reaches_all_clients", "C40_reaches_all_inline", "C40_qos", "C40_retained_then_live", "C40_unsub_one",
               "C40_unsub_others", "C40_inline_atomic_all_schedules"],
     model_files="coq/Session/Deliver.v; coq/Topics/InlineConc.v (concurrency dimension: atomic model, split variant, checker)",
@@ -32,7 +32,16 @@ PROP = dict(
          "then released; after quiescence: publishes on the matching topics (trailing '#' on the parent level included), "
          "inline Unsubscribe, publishes again.  Verdict by Topics.InlineConc.inline_engine: some serial order consistent "
          "with every goroutine's order must explain every return value and every set of handlers called (each exactly "
-         "once) under the plain-set specification",
+         "once) under the plain-set specification.  "
+         "ADDED (engine topics_inlinereent, ~390 / ~13000 cases): an inline Subscribe on a filter with a non-empty retained "
+         "backlog whose handler, inside its first retained callback, causes another publish through the embedding API — "
+         "re-entrantly (Server.Publish from inside the callback) or from a second goroutine while the callback is parked "
+         "until that publish has returned — to a topic matching the same subscription or another one, with the retain flag "
+         "or without; then a probe publish.  Verdict by Topics.InlineReent.reent_engine on the handler's log: every backlog "
+         "message exactly once; the publish made during the hand-over exactly once if retained and matching (it either "
+         "precedes the subscribe and is in the retained pass, or follows it and arrives live — never zero deliveries), at "
+         "most once if not retained (zero is a serial order but differs from the model: subscription inserted first, code 2), "
+         "never if not matching; the probe exactly once and last",
     exhaustive=False,
     modelled="server.go Publish/Subscribe/Unsubscribe/InjectPacket, topics.go InlineSubscribe/InlineUnsubscribe (as a set of "
              "(identifier, filter))",
